@@ -16,6 +16,7 @@ import (
 	"math"
 	"math/rand"
 	"sort"
+	"strings"
 
 	"github.com/prometheus/prometheus/model/labels"
 
@@ -275,7 +276,11 @@ func runBucket(in input) (common.Case, error) {
 	var sets []labels.Labels
 	if rerr == nil {
 		for _, f := range srv.frames {
-			sets = append(sets, labelpb.ZLabelsToPromLabels(f.Labels).Copy())
+			var ls []labels.Label
+			for _, x := range f.Labels {
+				ls = append(ls, labels.Label{Name: strings.Clone(x.Name), Value: strings.Clone(x.Value)})
+			}
+			sets = append(sets, labels.New(ls...))
 		}
 		sort.SliceStable(sets, func(i, j int) bool { return labels.Compare(sets[i], sets[j]) < 0 })
 		var xs []string
